@@ -14,11 +14,13 @@ Record ops (T : Type) := mkops {
   oabs : T -> T;             (* modulus, as a real *)
   oltb : T -> T -> bool;     (* strict comparison of real values *)
   osmall : T;                (* cola.linalg.inverse.cg._small_value = 1e-40 *)
+  ozero : T;                 (* do_safe_div calls a denominator zero when its modulus is below this: 1e-40 on the pinned tree
+                                (defect flag cg_absolute_small_guard); the smallest positive number (exact zero test) after the repair *)
   osafe : T                  (* what do_safe_div puts in place of a denominator below osmall: 1e-40 on the pinned tree
                                 (defect flag cg_safe_div_subnormal), 1 after the repair *)
 }.
 Arguments o0 {T}. Arguments o1 {T}. Arguments oadd {T}. Arguments osub {T}. Arguments omul {T}. Arguments odiv {T}.
-Arguments oopp {T}. Arguments oconj {T}. Arguments osqrt {T}. Arguments oabs {T}. Arguments oltb {T}. Arguments osmall {T}. Arguments osafe {T}.
+Arguments oopp {T}. Arguments oconj {T}. Arguments osqrt {T}. Arguments oabs {T}. Arguments oltb {T}. Arguments osmall {T}. Arguments osafe {T}. Arguments ozero {T}.
 
 (* whole-vector primitives used by the algorithms (numpy array expressions) *)
 Record vops (T V : Type) := mkvops {
@@ -54,11 +56,15 @@ Definition small_f : float := 0x1.16c262777579cp-133%float.  (* float(1e-40).hex
 Definition FR : ops float :=
   {| o0 := 0%float; o1 := 1%float; oadd := PrimFloat.add; osub := PrimFloat.sub; omul := PrimFloat.mul;
      odiv := PrimFloat.div; oopp := PrimFloat.opp; oconj := fun x => x; osqrt := PrimFloat.sqrt;
-     oabs := PrimFloat.abs; oltb := PrimFloat.ltb; osmall := small_f; osafe := small_f |}.
+     oabs := PrimFloat.abs; oltb := PrimFloat.ltb; osmall := small_f; ozero := small_f; osafe := small_f |}.
 (* the same with the repaired do_safe_div *)
 Definition FR1 : ops float :=
   {| o0 := o0 FR; o1 := o1 FR; oadd := oadd FR; osub := osub FR; omul := omul FR; odiv := odiv FR; oopp := oopp FR; oconj := oconj FR;
-     osqrt := osqrt FR; oabs := oabs FR; oltb := oltb FR; osmall := osmall FR; osafe := 1%float |}.
+     osqrt := osqrt FR; oabs := oabs FR; oltb := oltb FR; osmall := osmall FR; ozero := ozero FR; osafe := 1%float |}.
+(* the same with an exact zero test in do_safe_div: |den| < 2^-1074 iff den = 0 *)
+Definition FR2 : ops float :=
+  {| o0 := o0 FR; o1 := o1 FR; oadd := oadd FR; osub := osub FR; omul := omul FR; odiv := odiv FR; oopp := oopp FR; oconj := oconj FR;
+     osqrt := osqrt FR; oabs := oabs FR; oltb := oltb FR; osmall := osmall FR; ozero := 0x1p-1074%float; osafe := 1%float |}.
 
 (* ---- binary64 complex numbers as pairs ---- *)
 Definition cpx := (float * float)%type.
@@ -79,10 +85,13 @@ Definition FC : ops cpx :=
      oadd := fun a b => (fst a + fst b, snd a + snd b); osub := fun a b => (fst a - fst b, snd a - snd b);
      omul := cx_mul; odiv := cx_div; oopp := fun a => (- fst a, - snd a); oconj := fun a => (fst a, - snd a);
      osqrt := fun a => (PrimFloat.sqrt (fst a), 0); oabs := cx_abs;
-     oltb := fun a b => fst a <? fst b; osmall := (small_f, 0); osafe := (small_f, 0) |}.
+     oltb := fun a b => fst a <? fst b; osmall := (small_f, 0); ozero := (small_f, 0); osafe := (small_f, 0) |}.
 Definition FC1 : ops cpx :=
   {| o0 := o0 FC; o1 := o1 FC; oadd := oadd FC; osub := osub FC; omul := omul FC; odiv := odiv FC; oopp := oopp FC; oconj := oconj FC;
-     osqrt := osqrt FC; oabs := oabs FC; oltb := oltb FC; osmall := osmall FC; osafe := (1, 0) |}.
+     osqrt := osqrt FC; oabs := oabs FC; oltb := oltb FC; osmall := osmall FC; ozero := ozero FC; osafe := (1, 0) |}.
+Definition FC2 : ops cpx :=
+  {| o0 := o0 FC; o1 := o1 FC; oadd := oadd FC; osub := osub FC; omul := omul FC; odiv := odiv FC; oopp := oopp FC; oconj := oconj FC;
+     osqrt := osqrt FC; oabs := oabs FC; oltb := oltb FC; osmall := osmall FC; ozero := (0x1p-1074, 0); osafe := (1, 0) |}.
 Close Scope float_scope.
 
 (* ---- tolerance comparison helpers used by the generated case files ---- *)
